@@ -317,10 +317,18 @@ pub const SHAPES: &[&str] = &[
 /// x two hash streams x two schedules.
 pub fn systematic_runs(verif_seed: u64) -> Vec<RunSpec> {
     let mut out = vec![];
-    let cases = sensitive_set();
+    let main_set = sensitive_set();
+    // a second, small set without any common first letters, on which the ORDER of the test cases changes under case
+    // folding at the very first character ("Bc" < "ad" < "mn" but "ad" < "bc" < "mn"); in the big set an earlier
+    // "Ab" masks that. Used for a third variant of every shape.
+    let order_set: Vec<String> = vec!["Bc".into(), "ad".into(), "Zq".into(), "mn".into(), "Σx".into(), "σw".into()];
     for (si, s) in all_setters().into_iter().enumerate() {
         for (hi, shape) in SHAPES.iter().enumerate() {
-            for variant in 0..2u64 {
+            for variant in 0..3u64 {
+                if variant == 2 && !matches!(s, Setter::IgnoreCase | Setter::Capture | Setter::Verbose | Setter::NoAnchors | Setter::Repetitions) {
+                    continue;
+                }
+                let cases = if variant == 2 { order_set.clone() } else { main_set.clone() };
                 let mut rng = Rng::new(derive(verif_seed, &[0x535953, si as u64, hi as u64, variant]));
                 let mut pres = cases.clone();
                 rng.shuffle(&mut pres);
